@@ -47,15 +47,16 @@ func (s state) String() string {
 
 // Task is one schedulable thread of control.
 type Task struct {
-	ID    int
-	Name  string
-	Gen   int // generation: a simulated process crash kills a whole generation
-	state state
-	wake  chan struct{}
-	goid  uint64
-	dead  bool
-	on    string // what it is blocked on (debug)
-	steps int
+	ID     int
+	Name   string
+	Gen    int // generation: a simulated process crash kills a whole generation
+	Parent int // id of the task that spawned it (-1: none)
+	state  state
+	wake   chan struct{}
+	goid   uint64
+	dead   bool
+	on     string // what it is blocked on (debug)
+	steps  int
 }
 
 type lockModel struct {
@@ -263,7 +264,7 @@ func Choose(n int, tag string) int {
 // task bookkeeping
 
 func (s *Sim) newTaskLocked(name string, gen int) *Task {
-	t := &Task{ID: len(s.tasks), Name: name, Gen: gen, state: stParked, wake: make(chan struct{}, 1)}
+	t := &Task{ID: len(s.tasks), Name: name, Gen: gen, Parent: -1, state: stParked, wake: make(chan struct{}, 1)}
 	s.tasks = append(s.tasks, t)
 	return t
 }
@@ -343,6 +344,22 @@ func Yield(site string) {
 // CurrentTask returns the calling task (token holder).
 func (s *Sim) CurrentTask() *Task { return s.enter("current") }
 
+// Ancestors returns the ids of the calling task and of the tasks that (transitively) spawned it.
+func (s *Sim) Ancestors() []int {
+	t := s.enter("current")
+	s.mu.Lock()
+	defer s.mu.Unlock()
+	var out []int
+	for t != nil {
+		out = append(out, t.ID)
+		if t.Parent < 0 || t.Parent >= len(s.tasks) {
+			break
+		}
+		t = s.tasks[t.Parent]
+	}
+	return out
+}
+
 // Go spawns a task. Outside a simulation it is the go statement.
 func Go(fn func()) {
 	s := active.Load()
@@ -377,6 +394,7 @@ func (s *Sim) GoNamed(name string, gen int, fn func()) *Task {
 		gen = me.Gen
 	}
 	t := s.newTaskLocked(name, gen)
+	t.Parent = me.ID
 	s.mu.Unlock()
 	s.startTask(t, fn)
 	return t
